@@ -174,6 +174,17 @@ def _strip_added(body_after: str, body_before: str) -> bool:
 
 
 def _run_case(ctx, case) -> F.Outcome:
+    if case[0] == "spelled":
+        # the same move with the notes directory spelled through a symlink / with a '..'
+        H.set_dir_spelling(case[1])
+        try:
+            res = _run_case(ctx, case[2:])
+        finally:
+            H.set_dir_spelling()
+        if not res.ok:
+            res.detail["notes_directory_spelled"] = case[1]
+        res.nontrivial = H.digest(case)
+        return res
     if case[0] == "assigned":
         return _run_assigned(ctx, case)
     form, pos, mention, own, dkind, marker = case
@@ -496,6 +507,10 @@ def _cases(ctx):
         for dkind in ASSIGNED_DESTS:
             for marker in (None, "x"):
                 cases.append(["assigned", form, dkind, marker])
+    for how in ("symlink", "dotdot"):
+        for dkind in ("block-nl", "missing-template", "same-page", "header-only"):
+            for form, pos, marker in (("single", "middle", None), ("multi", "under-h2", "x")):
+                cases.append(["spelled", how, form, pos, "earlier-note", "same-as-inherited", dkind, marker])
     seen = set()
     out = []
     for c in cases:
@@ -507,6 +522,8 @@ def _cases(ctx):
 
 
 def _sample(case):
+    if case[0] == "spelled":
+        return dict(_sample(case[2:]), notes_directory_spelled=case[1])
     if case[0] == "assigned":
         return {"moved_note_as_written": ASSIGNED_FORMS[case[1]], "destination": build_dest(case[2])[0],
                 "steps": ["db create (assigns the ZID)", "note move <assigned ZID> dest.zo" + (f" {case[3]}" if case[3] else "")]}
